@@ -297,7 +297,7 @@ func runC18(rec *vk.Rec, ci int) {
 			} else {
 				c.cl.C.CloseWrite()
 			}
-			if !c.cl.WaitClosed(30 * time.Second) {
+			if !c.cl.WaitClosed(120 * time.Second) {
 				rec.Inconclusive("broker did not close")
 				return
 			}
